@@ -97,6 +97,63 @@ theorem checkedProd_some {ds : List U} {acc r : U} (h : checkedProd ds acc = som
       simp only [prod]
       rw [Nat.mul_assoc]
 
+/-- `iter().product()` in a release build is the wrapping product. -/
+theorem prodMode_false (ds : List U) (acc : U) :
+    prodMode false ds acc = some (acc * M.prod ds) := by
+  induction ds generalizing acc with
+  | nil => simp [prodMode, M.prod]
+  | cons d ds ih =>
+    simp only [prodMode, mulMode]
+    simp only [Bool.false_eq_true, false_and, if_false]
+    rw [ih]
+    simp only [M.prod]
+    congr 1
+    exact UInt64.mul_assoc acc d (M.prod ds)
+
+/-- If the product of the non-zero dims (times the start value) fits, no prefix product
+overflows and the checked fold succeeds. -/
+theorem checkedProd_of_prodNZ (ds : List U) (acc : U)
+    (h : acc.toNat * prodNZ (M.toNs ds) < wordSize) :
+    ∃ r, checkedProd ds acc = some r := by
+  induction ds generalizing acc with
+  | nil => exact ⟨acc, rfl⟩
+  | cons d ds ih =>
+    simp only [checkedProd]
+    rw [M.toNs_cons] at h
+    unfold prodNZ at h
+    have hpos := prodNZ_pos (M.toNs ds)
+    by_cases hd : d.toNat = 0
+    · have hm : checkedMul acc d = some (acc * d) := by
+        unfold checkedMul
+        rw [hd]; simp; decide
+      rw [hm]
+      apply ih
+      rw [M.mul_toNat, hd]
+      simp
+      decide
+    · simp only [hd, if_false] at h
+      have h1 : acc.toNat * d.toNat < wordSize := by
+        calc acc.toNat * d.toNat ≤ acc.toNat * (d.toNat * prodNZ (M.toNs ds)) :=
+              Nat.mul_le_mul_left _ (Nat.le_mul_of_pos_right _ hpos)
+          _ < wordSize := h
+      have hm : checkedMul acc d = some (acc * d) := by
+        unfold checkedMul; simp [h1]
+      rw [hm]
+      apply ih
+      rw [M.mul_toNat, Nat.mod_eq_of_lt h1, Nat.mul_assoc]
+      exact h
+
+/-- A successful checked product from `1` is both the ideal and the wrapping product. -/
+theorem checkedProd_one_eq {shape : List U} {n : U} (h : checkedProd shape 1 = some n) :
+    n = M.prod shape ∧ n.toNat = prod (M.toNs shape) := by
+  have p := checkedProd_some h
+  have one : (1 : U).toNat = 1 := rfl
+  rw [one, Nat.one_mul] at p
+  refine ⟨?_, p⟩
+  apply UInt64.toNat_inj.mp
+  rw [p, M.prod_toNat, Nat.mod_eq_of_lt]
+  rw [← p]; exact M.toNat_lt_W n
+
 theorem div_mul_le_toNat (b s : U) : (b / s).toNat * s.toNat ≤ b.toNat := by
   rw [UInt64.toNat_div]
   exact Nat.div_mul_le_self _ _
